@@ -94,6 +94,11 @@ CHECKS["C20"] = dict(
    text="Histories over 18 operations (exec, test, ten lastIndex assignments incl. -1, 1.5, \"1\", NaN, undefined, read, match, replace, search, split) x 10 patterns (incl. empty-matching) x flag sets {'', g, y, gy, gi, gm} x 8 subjects: a seeded 1/20 of all length-3 histories in quick (all in thorough, plus length 4-6 samples) and random histories to length 10; after every step [result, lastIndex] must equal the model built on the validated reference matcher. 30 000 (1e6) generated method cases (pattern AST, flags, subject biased to adjacent and empty matches, replacement templates incl. every $ form, logging/throwing function replacers, split limits) compare value, replacer call log and lastIndex afterwards.",
    note="Trusts oracles/reapi.py and reref.py (0 disagreements with node on 152 000 cases at development time).",
    ref="4/C20")
+CHECKS["C07"] = dict(
+   technique="recipe-generated programs (throw site x handler placement x try/catch/finally shape x expression context) differential against the reference interpreter; boundary and error-object oracles; metamorphic location-shift relation",
+   text="379 throw sites (throw of 21 values, 64 runtime-error sites, node-validated text sites incl. eval/Function, every callback-taking built-in, accessors, 144 conversion sites, 21 call forms) x 10 handler placements (same function, callers, across one or two native frames, returned function, uncaught) x nested C/F/CF shapes with every exit kind x 33 expression contexts with pending operands are run in the engine and in refjs: ordered log (each finally once per entry, each catch with the value it received), completion or uncaught outcome. Caught runtime errors must be instanceof their constructor and Error with name/message/constructor; uncaught throws must reach Python as JSError describing the value; the reported line/column must be the throw statement's (within the failing statement for runtime errors) and shift by exactly k under k leading lines/spaces. Every built-in is also called on 47 adversarial arguments: errors must be script-catchable, raising pairs become throw sites.",
+   note="Trusts oracles/refjs.py + refjs_c07.py (0 disagreements with node on 25 201 generated programs at development time). Error message wording is compared only for non-emptiness / containment.",
+   ref="4/C07")
 NA = {}
 m = {
  "version": 1,
